@@ -35,9 +35,9 @@ class TlcResult:
     printed: list = field(default_factory=list)  # values printed by PrintT (parsed lazily by callers)
 
 
-def _java_cmd(extra_jvm=()):
+def _java_cmd(extra_jvm=(), override=True):
     cp = f"{JAR}:{CM}"
-    if CLASSES.is_dir():
+    if override and CLASSES.is_dir():
         cp = f"{CLASSES}:{cp}"
     return ["java", "-XX:+UseParallelGC", "-Xss16m", *extra_jvm, "-cp", cp, "tlc2.TLC"]
 
@@ -48,10 +48,10 @@ def module_path_env():
     return "-DTLA-Library=" + os.pathsep.join(libs)
 
 
-def run(tla: Path, cfg: Path, tmp: Path, *, workers=8, args=(), env=None, timeout=900, jvm=()) -> TlcResult:
+def run(tla: Path, cfg: Path, tmp: Path, *, workers=8, args=(), env=None, timeout=900, jvm=(), override=True) -> TlcResult:
     """Run TLC on tla/cfg; metadir under tmp.  Raises TlcError on machinery failure."""
     meta = tmp / ("meta_" + tla.stem + "_" + str(time.time_ns()))
-    cmd = _java_cmd((module_path_env(), *jvm)) + [
+    cmd = _java_cmd((module_path_env(), *jvm), override) + [
         "-workers", str(workers), "-metadir", str(meta), "-noGenerateSpecTE",
         "-config", str(cfg), *args, str(tla),
     ]
